@@ -240,7 +240,7 @@ MUTANTS = [
            "class MIDIConversionError(Exception):\n\n  def __init__(self, *args):\n    super().__init__(*args)\n    cause = sys.exc_info()[1]\n    self.reason = cause.args[0] if cause is not None else None\n", rule='ESC/exception-class'),
     Mutant('the error class gets a docstring (harmless)', F, "class MIDIConversionError(Exception):\n  pass\n", 'class MIDIConversionError(Exception):\n  \"\"\"Raised when MIDI data cannot be converted.\"\"\"\n', expect='silent'),
     Mutant('seed C16_b: total_time overwritten per instrument by max(..., default=...)', F, "    for midi_note in midi_instrument.notes:\n      if not sequence.total_time or midi_note.end > sequence.total_time:\n        sequence.total_time = midi_note.end\n",
-           "    sequence.total_time = max((midi_note.end for midi_note in midi_instrument.notes), default=sequence.total_time)\n    for midi_note in midi_instrument.notes:\n", rule='PAIR/total-time'),
+           "    sequence.total_time = max((midi_note.end for midi_note in midi_instrument.notes), default=sequence.total_time)\n    for midi_note in midi_instrument.notes:\n", rule='PAIR/'),
     Mutant('running maximum written with max() (harmless)', F, "      if not sequence.total_time or midi_note.end > sequence.total_time:\n        sequence.total_time = midi_note.end\n",
            "      sequence.total_time = max(sequence.total_time, midi_note.end)\n", expect='silent'),
     Mutant('denominator store outside its handler', F, "    try:\n      # Denominator can be too large for int32.\n      time_signature.denominator = midi_time.denominator\n    except ValueError:\n      raise MIDIConversionError('Invalid time signature denominator %d' %\n                                midi_time.denominator)\n",
